@@ -315,6 +315,24 @@ func evaluate(c Chain) (out string, viol string) {
 			e2.Exit()
 		}
 	}
+	// a plain entry (no chain option) runs on the global chain: the pooled options of the entry under
+	// test must not leak their chain into it
+	{
+		n := len(log)
+		e3, b3 := sentinel.Entry("plain")
+		if b3 != nil {
+			return "", fmt.Sprintf("a plain entry after the entry under test was blocked: %v", b3)
+		}
+		if len(log) != n {
+			return "", fmt.Sprintf("a plain entry after the entry under test ran slots of the custom chain: %v", log[n:])
+		}
+		if e3 != nil {
+			e3.Exit()
+			if len(log) != n {
+				return "", fmt.Sprintf("the exit of a plain entry ran slots of the custom chain: %v", log[n:])
+			}
+		}
+	}
 	if blk != nil {
 		if after := snap(blk); after != before {
 			return "", fmt.Sprintf("the block error handed to the caller changed from %+v to %+v after %d further entries", before, after, c.Follow)
@@ -381,6 +399,8 @@ func hasBlock(ck []slotSpec) bool {
 
 func signature(what string) string {
 	switch {
+	case strings.Contains(what, "plain entry"):
+		return "C16:custom-chain-leaks-into-plain-entry"
 	case strings.Contains(what, "call log differs"):
 		return "C16:history-dependent"
 	case strings.Contains(what, "panic reached the caller"):
